@@ -141,6 +141,32 @@ def plan(tier, seed):
         for k in (1, 2, 3, 4):
             cases.append({"spec": spec, "devs": [["led", f"facility_related_data_{k}", "raw_file_data", {"hex": (b"ignored content %d " % k).hex()}]], "label": f"{level} facility record {k} content"})
         cases.append({"spec": spec, "devs": all_spares, "label": f"{level} all spare areas rewritten at once"})
+    # a second baseline in which all numeric fields of a record hold the SAME value (a blank must not be filled in from an
+    # equal / related neighbour), and the map-projection record under every supported designator
+    variants = [(SPEC15, None), (SPEC11, None)]
+    for des in ("LCC-PROJECTION", "MER-PROJECTION", "UPS-PROJECTION", "UTM-PROJECTION"):
+        variants.append(({**SPEC15, "level": "3.1" if des[:3] in ("LCC", "MER") else "1.5", "leader": {**SPEC15["leader"], "n_mp": 1, "designator": des}}, des))
+    for spec, des in variants:
+        level = spec["level"]
+        for file, inst, lay_name in record_instances(level):
+            if des is not None and inst != "map_projection":
+                continue
+            lay = synth.layout(lay_name)
+            nullable = [f for f in lay.fields if f["kind"] in "AIFC" and not required(f) and not padding_like(f["name"])]
+            numeric = [f for f in nullable if f["kind"] in "IF"]
+            if len(numeric) < 2:
+                continue
+            for text in ("35", "0"):
+                uniform = {f["key"]: dev(file, inst, f, text.rjust(f["w"]).encode()) for f in numeric}
+                cases.append({"spec": spec, "devs": list(uniform.values()), "label": f"{level} {des or ''} uniform {text} in {file}.{inst}"})
+                for f in nullable:
+                    if des is None and text == "0" and f["idx"] % 3:
+                        continue  # the second uniform value only on a third of the fields outside the map projection (cost)
+                    devs = [d for k, d in uniform.items() if k != f["key"]] + [dev(file, inst, f, b" " * f["w"])]
+                    cases.append({"spec": spec, "devs": devs, "label": f"{level} {des or ''} blank {file}.{inst}.{f['key']} among fields that all hold {text}"})
+            if des is not None:
+                for f in nullable:
+                    cases.append({"spec": spec, "devs": [dev(file, inst, f, b" " * f["w"])], "label": f"{level} {des} blank {file}.{inst}.{f['key']}"})
     if tier == "thorough":
         cases += influence_cases()
     return cases
@@ -215,7 +241,7 @@ def execute(case):
 def run(res, tier, seed):
     res.rule = (
         "level 1.5 and 1.1 products: every nullable ASCII value field (not a count/length/code/flag/date-time) of every record"
-        " blanked alone and all of a record at once (+ all pairs within a record, thorough); every spare/blank/reserved area"
+        " blanked alone, all of a record at once (+ all pairs within a record, thorough), and alone in a record whose numeric fields all hold the same value (35 / 0);" " the map-projection record under each of the LCC / MER / UPS / UTM designators; every spare/blank/reserved area"
         " (text, numeric, binary, length-dependent padding, ignored facility content) rewritten with each content of its character"
         " class, alone and all at once; thorough: one well-formed single-byte change for every byte of every leader value field"
         " and of both line-record prefixes. The whole tree (except attitude time, C17) is compared with the reference model."
